@@ -658,8 +658,12 @@ tail:
                         janet_panic("C stack recursed too deeply");
                     janet_vm.stackn += used;
                     if (janet_checktype(constant, JANET_CFUNCTION)) {
+                        /* The match state (captures, scratch, tags) is not rooted: keep the collector
+                         * suspended while a C function runs, as janet_call does for functions. */
+                        int handle = janet_gclock();
                         cap = janet_unwrap_cfunction(constant)(s->captures->count - cs.cap,
                                                                s->captures->data + cs.cap);
+                        janet_gcunlock(handle);
                     } else {
                         cap = janet_call(janet_unwrap_function(constant),
                                          s->captures->count - cs.cap,
